@@ -61,6 +61,8 @@ def run_case(case):
         records = [recs.build_record(r) for r in case["records"]]
     except Exception as e:  # noqa: BLE001
         return {"ev": 1, "h": h, "nt": False, "out": "rejected:" + type(e).__name__}
+    if any(r.get("xfail") for r in case["records"]):
+        return {"ev": 1, "h": h, "nt": False, "out": "refused-write-history (C01/C03)"}
     expected = obs_list(records)
     viol = []
     outs = []
